@@ -5,7 +5,20 @@ import json, sys
 pid = sys.argv[1]
 props = {json.loads(l)['id']: json.loads(l) for l in open('/verif/properties.jsonl')}
 p = props[pid]
-BASE = sys.argv[2] if len(sys.argv) > 2 else "/tmp/seed"
+BASE = sys.argv[2] if len(sys.argv) > 2 and not sys.argv[2].startswith("--") else "/tmp/seed"
+AVOID = ""
+if "--avoid" in sys.argv:
+    # later rounds: one line per change already produced for this property (site, change, trigger) and nothing else
+    import os
+    sys.path.insert(0, os.path.dirname(os.path.abspath(__file__)))
+    from seed_summaries import S
+    mine = [f"  - {v[0]}: {v[1]} (needs: {v[2]})" for k, v in sorted(S.items()) if k.startswith(pid + "-")]
+    AVOID = ("\n\nEarlier rounds of this exercise already produced the following changes for this property. Do NOT repeat them, "
+             "and do not produce a close cousin of any of them (same site with a different constant, or the same KIND of trigger): "
+             "find a different site AND a different kind of trigger - e.g. something that only shows for a particular combination of two "
+             "conditions, for an unusual but legal way of calling the public API (clones, moved values, reuse of a key object, an API form "
+             "nobody pairs with another), for a rare value or length class, in one feature subset or build profile only, after a long or "
+             "oddly ordered history, or on one of the less used suites.\n" + "\n".join(mine))
 print(f"""You are helping to evaluate a verification tool for the Rust crate `hpke` (rozbb/rust-hpke, an RFC 9180 HPKE implementation). Your job is to act as a realistic source of bugs.
 
 You have your own scratch git worktree of the crate at {BASE}/{pid} (work ONLY inside that directory; never touch /repo or /verif, and do not read anything under /verif). Build offline only: always pass `--offline` to cargo and set `CARGO_TARGET_DIR={BASE}/{pid}/target`. A Cargo.lock is already there. There is no network.
@@ -29,4 +42,4 @@ Deliverables, all inside {BASE}/{pid}/_seed/ :
   - A/demo.rs (the demonstration test/example source) and A/notes.md saying: what the change is, what exactly it needs in order to manifest, the exact commands you ran (tests, demo with and without the change) and their results.
   - the same under B/.
 When you are done leave the worktree's tracked files unmodified (git checkout -- . ; remove any demo files you put in tests/ or examples/), keep only _seed/, and delete {BASE}/{pid}/target to free disk space.
-Your final message should be a short summary (a few lines per change). Do not spend effort on anything else.""")
+Your final message should be a short summary (a few lines per change). Do not spend effort on anything else.""" + AVOID)
